@@ -1,6 +1,6 @@
 (* Parser correspondence cases: the tree the parser model builds from the bytes of a template,
    against the tree dumped from the real parser (or against the real parser's refusal). *)
-From DT Require Import Model.Bytes Model.Tree Model.TreeEq Model.Regex Model.ParserRe Model.Parser.
+From DT Require Import Model.Bytes Model.Tree Model.TreeEq Model.Regex Model.ParserRe Model.Parser Model.Preproc.
 
 Inductive pmverdict := PMOk | PMBadTree | PMBadErr | PMFuel.
 
@@ -27,3 +27,7 @@ Definition re_check (r : re) (subject : bytes) (expect : option (list Z)) : bool
   | Some a, Some b => if list_eq_dec Z.eq_dec a b then true else false
   | _, _ => false
   end.
+
+(* the clean-up with the regenerated expressions against the hand-written clean-up of Model/Preproc.v *)
+Definition preproc_agree (T : retab) (keep : bool) (src : bytes) : bool :=
+  bytes_eqb (preprocess_re T keep src) (preprocess keep src).
